@@ -58,6 +58,13 @@ Theorem C17_crlf_record : forall desc data post o e a k,
 Proof. exact fasta_record_crlf. Qed.
 Print Assumptions C17_crlf_record.
 
+(* a stream of N written records whose every LF became CR LF reads back as
+   the same N records in order, clean end *)
+Theorem C17_crlf_stream : forall recs, Forall rec_ok recs ->
+  scan_fasta (crlf (concat (map fmt recs))) = Ok (recs, true).
+Proof. exact fasta_stream_crlf. Qed.
+Print Assumptions C17_crlf_stream.
+
 Example C17_crlf_example :
   let d := [115; 49] in let p := repeat 97 71 in
   crlf (fasta_format d p) = [62; 115; 49; 13; 10] ++ repeat 97 70 ++ [13; 10; 97; 13; 10] /\
